@@ -12,7 +12,8 @@ SPEC = dict(
              '(c06_bits_exact); the matching load on that encoding followed by any continuation returns the value and leaves exactly the continuation '
              '(c06_store_load, c06_decode_encode); any list of values stored into an empty builder loads back equal with nothing left '
              '(c06_sequence, induction); whenever load_X returns, preload_X returns the same and leaves the slice unchanged (c06_preload_eq_load, '
-             'every kind incl. preload_address); var-int length prefixes are minimal for both signs (c06_varint_minimal); snake chains: see c06_snake*. '
+             'every kind incl. preload_address); var-int length prefixes are minimal for both signs (c06_varint_minimal) and the byte-length computations of store_var_uint/store_var_int are '
+             're-translated from builder.py on every run and proved equal to the TL-B minimal lengths for ALL integers (c06_src_varint_len, c06_src_varuint_len); snake chains: see c06_snake*. '
              'The model is tied to the working tree by differential testing: seeded scripts run on the library and on the compiled model, and '
              'each script is also checked on the library alone against an independent Python TL-B encoder, peek/load round trip and leftovers.',
         level_note='Proved for all inputs: the statements above, about Model/Builder.lean. Only sampled: that builder.py/slice.py/tvm_bitarray.py/'
